@@ -222,8 +222,8 @@ theorem step_s0_ndm (orc : Oracle) (m : PM) (f : Frame) (rest : List Frame) (tok
       split
       · exact ndm_rejectWith _ _ _ _
       · simp only [runValid_spec]
-        have hp2 : ndCfg ({ writeBack p f with cfg := (writeBack p f).cfg.setLine f.cfg.line } : Frame).cfg = true :=
-          setLine_nd _ _ (writeBack_nd p f (hr p (by simp)) hf)
+        have hp2 : ndCfg ({ writeBack p f with cfg := (writeBack p f).cfg.afterSection f.cfg } : Frame).cfg = true :=
+          setInfo_nd _ _ (writeBack_nd p f (hr p (by simp)) hf)
         cases validVerdict orc _ _ with
         | none => exact ndm_reject _ _ _
         | some cs => exact ndm_run _ _ rest' rfl hp2 (fun q hq => hr q (List.mem_cons_of_mem _ hq))
